@@ -54,6 +54,8 @@ def alphabet():
         ("rel", "D", "influence", None, (e1, e1)),
         ("rel", "D", "membership", None, (e1, e2)),
         ("at", ("A", "k", S("ex")), "s_a"),
+        # attributes whose local names are words a graph library uses as keys of its node / edge data
+        ("at", ("A", "relation", S("ex")), "s_a"), ("at", ("A", "key", S("ex")), "i_2"), ("at", ("A", "weight", S("ex")), "f_2_5"),
         # the identifier of the generation above, on another relation kind between the same two nodes
         ("rel", "D", "invalidation", n("gen"), (e2, a1, None)),
         # an undeclared name (g1 unless declared) referenced in roles of different inferred kinds
@@ -198,6 +200,9 @@ class C14(spec.Spec):
             if rel is None:
                 out.violation("edge-without-relation", "edge", {}, hist)
                 return
+            if not hasattr(rel, "formal_attributes"):
+                out.violation("edge-carries-something-else-than-its-relation", type(rel).__name__, {"carried": repr(rel)[:200]}, hist)
+                return
             if observe.robs(rel) in unclaimed:
                 continue
             got_edges[(u.identifier.uri, v.identifier.uri, observe.robs(rel))] += 1
@@ -240,7 +245,7 @@ def main(tier, seed):
     from .. import runner
     return runner.run_history(
         __name__, "C14", tier, seed, {"quick": 3, "thorough": 4}[tier],
-        rule="BFS over bundle-free histories of <= depth records/attributes (27-letter alphabet: declared and "
+        rule="BFS over bundle-free histories of <= depth records/attributes (31-letter alphabet: declared and "
              "undeclared endpoints, entity+agent with one identifier, self-loops, parallel duplicates, identified and "
              "anonymous relations, missing endpoints); non-trivial = the reference graph has at least one edge")
 
